@@ -612,6 +612,32 @@ def run(tier, seed, replay=None):
             corr_bad += {'what': 'L1: control points of %s differ from the model (max %g)' % (kind, np.abs(got - want).max() if got.shape == want.shape else -1), 'op': kind,
                         'args': {k: (v.tolist() if hasattr(v, 'tolist') else (bjson(v) if isinstance(v, dict) and 'knots' in v else str(v))) for k, v in d.items() if k not in ('bases',)}}
     dist['op']['L1 comparisons'] = nl1
+    # ---- kernel-evaluated tie: Curve.rebuild vs Model/Rebuild.v (curve_rebuild on Q, vm_compute)
+    import vmtie as T
+    rcases = []
+    for _ in range(10 if tier == 'quick' else 80):
+        p0 = rng.choice([2, 3, 4])
+        inner = sorted(rng.sample(range(1, 8), rng.randint(0, 2)))
+        a_, b_ = rng.choice([(0.0, 1.0), (1.0, 3.0), (-2.0, 2.0), (5.0, 5.5)])
+        kn_ = [a_] * p0 + [a_ + (b_ - a_) * x_ / 8.0 for x_ in inner] + [b_] * p0
+        n0_ = len(kn_) - p0
+        dim_ = rng.choice([1, 2, 3])
+        rat_ = rng.random() < 0.35
+        cps_ = [[rng.randint(-16, 16) / 4.0 for _c in range(dim_)] + ([rng.choice([1.0, 0.5, 2.0, 1.25])] if rat_ else []) for _i in range(n0_)]
+        crv = Curve(BSplineBasis(p0, kn_), cps_, rat_)
+        p1 = rng.choice([2, 3, 4])
+        n1_ = p1 + rng.randint(0, 3)
+        try:
+            got = crv.clone().rebuild(p1, n1_)
+        except Exception as e:  # noqa
+            dist['errors']['vmtie rebuild ' + type(e).__name__] = dist['errors'].get('vmtie rebuild ' + type(e).__name__, 0) + 1
+            continue
+        dist['op']['vmtie rebuild'] = dist['op'].get('vmtie rebuild', 0) + 1
+        term = T.obj_close('curve_rebuild %s %s %d %d' % (T.q(state.knot_tolerance), T.obj(crv), p1, n1_), got, 1e-7)
+        rcases.append(('rebuild(%d, %d) of an order-%d curve with %d control points on [%g, %g], dimension %d, rational %s' % (p1, n1_, p0, n0_, a_, b_, dim_, rat_),
+                       term, dict(order=p0, knots=kn_, controlpoints=cps_, rational=rat_, p=p1, n=n1_)))
+    tie_r = T.report(V, corr_bad, 'rebuild', 'Model/Rebuild.v curve_rebuild', *T.run_tie('rebuild', ['Model.Rebuild'], rcases))
+    dist['op']['vmtie rebuild evaluated'] = tie_r['cases']
     rc = V.finish(l0, corr_bad)
     C.write_evidence(PID, tier, seed, l0, {
         'evaluations': evals, 'distinct_nontrivial': len(nontriv),
